@@ -9,6 +9,7 @@ arbitrary partial function: valid, converting or rejecting), all histories.
 -/
 import TraitsVerif.Lemmas.SeqLen
 import TraitsVerif.Generated.Mutators
+import TraitsVerif.Generated.LenGuard
 import TraitsVerif.Props.C05
 import TraitsVerif.Model.Nested
 import TraitsVerif.Props.C06
@@ -175,6 +176,63 @@ theorem C04_list_mutators_guarded :
 
 /-- `TraitListObject` derives from `TraitList`, so unguarded operations still validate items. -/
 theorem C04_listobject_base : Generated.traitListObjectBases = ["TraitList"] := by decide
+
+/-! ### The guards of the model are the guards of the source
+
+`Generated/LenGuard.lean` is re-read from `trait_list_object.py` /
+`trait_types.py` on every run: per override of `TraitListObject`, the expression
+handed to `_validate_length` and the syntactic condition it stands under.  The
+next theorems say that the hand-written `guardLen`, `LenCfg.ok` and the length
+test of `TraitListObject.assign` are exactly the interpretation of that data,
+so an edit of a guard in the source (another expression, a dropped override, a
+strict comparison) breaks one of these obligations. -/
+
+/-- `guardLen` is the interpretation of the translated guard table, for every list and every operation. -/
+theorem C04_guard_is_source (l : List α) (op : Op α) :
+    guardLen l op = guardOfTable Generated.lenGuards l op := by
+  cases op with
+  | setSlice s xs =>
+    by_cases h : s.step = none ∨ s.step = some 1
+    · simp [guardLen, guardOfTable, Generated.lenGuards, Op.gcall, lookupMethod, firstPath, GCond.holds,
+        GAct.usesSel, GE.usesSel, runAct, GE.eval, h]
+      cases getSlice l s with
+      | error e => rfl
+      | ok r => simp <;> try omega
+    · have h' : ¬ s.step = none ∧ ¬ s.step = some 1 := by
+        constructor
+        · intro c; exact h (Or.inl c)
+        · intro c; exact h (Or.inr c)
+      simp [guardLen, guardOfTable, Generated.lenGuards, Op.gcall, lookupMethod, firstPath, GCond.holds,
+        GAct.usesSel, GE.usesSel, runAct, GE.eval, h']
+      cases getSlice l s with
+      | error e => rfl
+      | ok r =>
+        by_cases hl : xs.length = r.length
+        · simp [hl]
+        · simp [hl]
+  | delSlice s =>
+    simp [guardLen, guardOfTable, Generated.lenGuards, Op.gcall, lookupMethod, firstPath, GCond.holds,
+      GAct.usesSel, GE.usesSel, runAct, GE.eval]
+    cases getSlice l s with
+    | error e => rfl
+    | ok r => simp <;> try omega
+  | _ =>
+    -- `try omega`: a source rewrite that only re-associates the arithmetic keeps the proof
+    simp [guardLen, guardOfTable, Generated.lenGuards, Op.gcall, lookupMethod, firstPath, GCond.holds,
+      GAct.usesSel, GE.usesSel, runAct, GE.eval] <;> try omega
+
+/-- `LenCfg.ok` is the comparison chain of `_validate_length` and of `List.validate`. -/
+theorem C04_bound_is_source (c : LenCfg) (n : Int) :
+    c.ok n = Generated.validateLengthBound.ok c n ∧ c.ok n = Generated.listValidateBound.ok c n := by
+  simp [LenCfg.ok, GBound.ok, Generated.validateLengthBound, Generated.listValidateBound]
+
+/-- `TraitListObject.__init__` checks the length of the listed value (the
+`c.ok xs.length` of `TraitListObject.assign`), and every override hands over to
+the `super()` method of its own name. -/
+theorem C04_init_guard_is_source :
+    lookupMethod "__init__" Generated.lenGuards = some [{ conds := [], act := .check .added }] ∧
+    ∀ p ∈ Generated.lenGuardSuper, p.1 = p.2 := by
+  decide
 
 /-! ### Nested containers -/
 
